@@ -47,6 +47,7 @@ type desc struct {
 	Dly   int64   `json:"dly"`  // retry: fixed delay (units)
 	MaxD  int64   `json:"maxd"` // retry: max duration (units)
 	Wait  int64   `json:"wait"` // bulkhead: max wait time (units)
+	Ival   int64   `json:"ival"`   // smooth rate limiter: interval (units); 0 = the sequential model's bursty limiter
 	Delays []int64 `json:"delays"` // hedge: delay function = delays[Hedges() % len] (empty: fixed delay)
 }
 
@@ -555,6 +556,9 @@ func buildStack(stack []desc, unit time.Duration, rec *recorder) *builtStack {
 			p = cb
 		case "rl":
 			b := ratelimiter.BurstyBuilder[string](uint(d.M), 1000000*unit)
+			if d.Ival > 0 {
+				b = ratelimiter.SmoothBuilderWithMaxRate[string](time.Duration(d.Ival) * unit).WithMaxWaitTime(time.Duration(d.Wait) * unit)
+			}
 			if rec.registered("OnRateLimitExceeded") {
 				b.OnRateLimitExceeded(func(e failsafe.ExecutionEvent[string]) { rec.attempt("OnRateLimitExceeded", evLayer, e, nil) })
 			}
